@@ -492,6 +492,30 @@ thread_local! {
     /// what went wrong inside Clone / Drop of an element (reported by the case that was running)
     static OBJ_ERR: std::cell::RefCell<Vec<String>> = const { std::cell::RefCell::new(Vec::new()) };
     static CLONES: std::cell::Cell<u64> = const { std::cell::Cell::new(0) };
+    /// fault injection for the C04 family: counts the element callbacks (==, clone, drop); the callback that
+    /// finds the fuse at 0 panics (never a drop that runs during an unwinding - that would abort)
+    static FUSE: std::cell::Cell<i64> = const { std::cell::Cell::new(i64::MAX) };
+    static TICKS: std::cell::Cell<u64> = const { std::cell::Cell::new(0) };
+}
+struct Injected;
+fn tick() {
+    TICKS.with(|t| t.set(t.get() + 1));
+    let f = FUSE.with(|f| {
+        let v = f.get();
+        f.set(v.saturating_sub(1));
+        v
+    });
+    if f == 0 && !std::thread::panicking() {
+        std::panic::panic_any(Injected);
+    }
+}
+fn arm(at: i64) {
+    TICKS.with(|t| t.set(0));
+    FUSE.with(|f| f.set(at));
+}
+fn disarm() -> u64 {
+    FUSE.with(|f| f.set(i64::MAX));
+    TICKS.with(|t| t.get())
 }
 const OMAGIC: u32 = 0x5EED_0B1E;
 fn obj_new() -> u32 {
@@ -538,6 +562,7 @@ impl PartialEq for Ob {
     fn eq(&self, o: &Ob) -> bool {
         obj_check(self.id, self.cookie, "comparison");
         obj_check(o.id, o.cookie, "comparison");
+        tick();
         self.x == o.x
     }
 }
@@ -545,6 +570,7 @@ impl Eq for Ob {}
 impl Clone for Ob {
     fn clone(&self) -> Ob {
         obj_check(self.id, self.cookie, "clone");
+        tick();
         CLONES.with(|c| c.set(c.get() + 1));
         Ob::new(self.x)
     }
@@ -553,6 +579,7 @@ impl Drop for Ob {
     fn drop(&mut self) {
         obj_drop(self.id, self.cookie);
         self.cookie = 0xDEAD_DEAD;
+        tick();
     }
 }
 
@@ -726,6 +753,105 @@ fn own_family<const C: usize>(cx: &mut Ctx) -> u64 {
     cases
 }
 
+
+/// C04 at capacity boundaries: the operations that run user code over the whole container (clone, clone_from,
+/// retain, clear, drop, drain / into_iter dropped half way, bulk construction, a replacement, `==`) with a panic
+/// injected at the first, second, middle, last-but-one and last element callback (==, clone, drop) the operation
+/// makes. Afterwards: nothing was destroyed twice or used dead, every surviving container yields only live
+/// elements, can be cleared and refilled, and drops cleanly. Leaks are tolerated.
+fn fault_family<const C: usize>(cx: &mut Ctx) -> u64 {
+    let mut cases = 0u64;
+    for f in fills(C) {
+        if f == 0 {
+            continue;
+        }
+        for o in ORDERS {
+            cx.here.path = vec![format!("Map<Ob,Ob,{C}> (elements with destructors) filled with keys 0..{f} ({o:?})")];
+            // op(m, other) runs with the fuse armed; both containers survive in the caller
+            type Op<const C: usize> = (&'static str, fn(&mut Map<Ob, Ob, C>, &mut Map<Ob, Ob, C>));
+            let ops: [Op<C>; 10] = [
+                ("clone", |m, other| *other = m.clone()),
+                ("clone_from into a half-full target", |m, other| other.clone_from(m)),
+                ("retain(even keys)", |m, _| m.retain(|k, _| k.x % 2 == 0)),
+                ("clear", |m, _| m.clear()),
+                ("drop", |m, _| drop(std::mem::replace(m, Map::new()))),
+                ("drain, take 1, drop", |m, _| {
+                    let mut d = m.drain();
+                    let _first = d.next();
+                }),
+                ("into_iter, take 1, drop", |m, _| {
+                    let mut it = std::mem::replace(m, Map::new()).into_iter();
+                    let _first = it.next();
+                }),
+                ("from_iter of clones", |m, other| *other = m.iter().map(|(k, v)| (k.clone(), v.clone())).collect()),
+                ("insert over the middle key, remove the first", |m, _| {
+                    let n = m.len() as u16;
+                    m.insert(Ob::new(n / 2), Ob::new(1));
+                    m.remove(&Ob::new(0));
+                }),
+                ("==", |m, other| {
+                    let _ = *m == *other;
+                }),
+            ];
+            for (name, op) in ops {
+                // dry run: how many callbacks does the operation make?
+                let setup = || {
+                    let m = build_own::<C>(f, o);
+                    let mut other: Map<Ob, Ob, C> = Map::new();
+                    for k in 0..(C / 2).min(f) as u16 {
+                        other.insert(Ob::new(k), Ob::new(k.wrapping_mul(3)));
+                    }
+                    (m, other)
+                };
+                obj_reset();
+                let total = {
+                    let (mut m, mut other) = setup();
+                    arm(i64::MAX);
+                    op(&mut m, &mut other);
+                    disarm()
+                };
+                if !OBJ_ERR.with(|e| e.borrow().is_empty()) {
+                    continue; // misbehaves without any panic: another property's business
+                }
+                let mut at: Vec<u64> = vec![0, 1, total / 2, total.saturating_sub(2), total.saturating_sub(1)];
+                at.retain(|p| *p < total);
+                at.sort_unstable();
+                at.dedup();
+                for p in at {
+                    cx.here.op = format!("{name}, a panic injected at element callback #{p} of {total}");
+                    cx.evaluations += 1;
+                    cx.nontrivial += 1;
+                    cases += 1;
+                    obj_reset();
+                    {
+                        let (mut m, mut other) = setup();
+                        arm(p as i64);
+                        let r = catch_unwind(AssertUnwindSafe(|| op(&mut m, &mut other)));
+                        disarm();
+                        cx.check(C04, r.as_ref().map_or_else(|e| e.is::<Injected>(), |_| true), || format!("{name}: a panic other than the injected one"));
+                        for (which, c) in [("the container", &mut m), ("the second container", &mut other)] {
+                            let items = own_contents(c);
+                            let mut keys: Vec<u16> = items.iter().map(|e| e.0).collect();
+                            keys.dedup();
+                            cx.check(C04, keys.len() == items.len() && c.len() == items.len() && c.len() <= C, || {
+                                format!("{name}: after the panic {which} has len() {} and yields {} entries, {} distinct keys", c.len(), items.len(), keys.len())
+                            });
+                            c.clear();
+                            for k in 0..C as u16 {
+                                c.insert(Ob::new(k), Ob::new(2));
+                            }
+                            cx.check(C04, c.len() == C, || format!("{name}: after the panic {which} cannot be cleared and refilled"));
+                        }
+                    }
+                    let errs: Vec<String> = OBJ_ERR.with(|e| e.borrow().clone());
+                    cx.check(C04, errs.is_empty(), || format!("{name}: {}", errs.join("; ")));
+                }
+            }
+        }
+    }
+    cases
+}
+
 /// Set algebra and equality on elements wider than a machine word, all fill levels of both operands.
 fn wide_elem_family<const C: usize, const D: usize>(cx: &mut Ctx) -> u64 {
     type W = (u64, u64);
@@ -794,6 +920,9 @@ fn run_cap<const C: usize, const D: usize>(rep: &mut EngineReport) {
     }
     if en & (C02 | C10 | C15) != 0 {
         d += own_family::<C>(&mut cx);
+    }
+    if en & C04 != 0 {
+        d += fault_family::<C>(&mut cx);
     }
     cx.sample(|| J::obj().set("capacity", C).set("fill_levels", format!("{:?}", fills(C))).set("orders", "ascending, descending, shuffled by swap-removes"));
     rep.configs.push(
